@@ -41,6 +41,10 @@ def Pipe.write (p : Pipe) (d : Bytes) : Except H2Err Pipe :=
   else if !p.hasBuf then .error .pipeWrite
   else .ok { p with buf := p.buf ++ d }
 
+/-- `setBuffer`: no effect on a closed pipe. -/
+def Pipe.setBuffer (p : Pipe) : Pipe :=
+  if p.err.isSome ∨ p.breakErr.isSome then p else { p with hasBuf := true }
+
 def Pipe.closeWithError (p : Pipe) (e : H2Err) (fn : Bool) : Pipe :=
   if p.err.isSome then p else { p with err := some e, readFn := fn }
 
@@ -122,29 +126,42 @@ def H2Stream.connError (s : H2Stream) : H2Stream :=
 def bodyAllowedForStatusH2 (status : Nat) : Bool :=
   !((100 ≤ status ∧ status ≤ 199) ∨ status = 204 ∨ status = 304)
 
+/-- `f.PseudoValue("status")`. -/
+def h2StatusValue (fs : Fields) : Option Bytes :=
+  ((fs.filter fun kv => kv.1 == [58, 115, 116, 97, 116, 117, 115] /- ":status" -/).head?).map (·.2)
+
+/-- `f.RegularFields()` under `canonicalHeader`. -/
+def h2Regular (fs : Fields) : Fields :=
+  (fs.filter fun kv => !isPseudo kv.1).map fun kv => (canonicalMIMEHeaderKey kv.1, kv.2)
+
+/-- `res.Header`: every regular field except `Trailer`, canonical names, wire order. -/
+def h2Fields (fs : Fields) : Fields := (h2Regular fs).filter (·.1 != [84, 114, 97, 105, 108, 101, 114] /- "Trailer" -/)
+
+def h2Declared (fs : Fields) : List Bytes := ((h2Regular fs).filter (·.1 == [84, 114, 97, 105, 108, 101, 114] /- "Trailer" -/)).map (·.2)
+
+/-- `res.Header["Content-Length"]`. -/
+def h2ContentLengths (fs : Fields) : List Bytes :=
+  ((h2Fields fs).filter (·.1 == [67, 111, 110, 116, 101, 110, 116, 45, 76, 101, 110, 103, 116, 104] /- "Content-Length" -/)).map (·.2)
+
 /-- `handleResponse`: `none` = 1xx skipped. -/
 def H2Stream.handleResponse (s : H2Stream) (fs : Fields) (endStream : Bool) :
     Except H2Err (Option H2Res) × H2Stream :=
-  match (fs.filter fun kv => kv.1 == strBytes ":status").head? with
+  match h2StatusValue fs with
   | none => (.error .streamProto, s)
-  | some (_, sv) =>
+  | some sv =>
     if sv.isEmpty then (.error .streamProto, s) else
     match natOfDigits sv with
     | none => (.error .streamProto, s)
     | some code =>
-      let regular := fs.filter fun kv => !isPseudo kv.1
-      let canon := regular.map fun kv => (canonicalMIMEHeaderKey kv.1, kv.2)
-      let trKey := strBytes "Trailer"
-      let fields := canon.filter (·.1 != trKey)
-      let declared := (canon.filter (·.1 == trKey)).map (·.2)
+      let fields := h2Fields fs
+      let declared := h2Declared fs
       if 100 ≤ code ∧ code ≤ 199 then
         if endStream then (.error .streamProto, s)
         else if s.num1xx + 1 > 5 then (.error .streamProto, { s with num1xx := s.num1xx + 1 })
         else (.ok none, { s with num1xx := s.num1xx + 1, pastHeaders := false })
       else
-        let clens := (fields.filter (·.1 == strBytes "Content-Length")).map (·.2)
         let cl : Option Nat :=
-          match clens with
+          match h2ContentLengths fs with
           | [c] => natOfDigits c
           | [] => if endStream ∧ !s.isHead then some 0 else none
           | _ => none
@@ -157,7 +174,7 @@ def H2Stream.handleResponse (s : H2Stream) (fs : Fields) (endStream : Bool) :
           (.ok (some { status := code, fields := fields, declaredTrailers := declared, contentLength := cl, body := kind }), s)
         else
           (.ok (some { status := code, fields := fields, declaredTrailers := declared, contentLength := cl, body := .piped }),
-           { s with pipe := { s.pipe with hasBuf := (s.pipe.err.isNone ∧ s.pipe.breakErr.isNone) || s.pipe.hasBuf }, bytesRemain := cl })
+           { s with pipe := s.pipe.setBuffer, bytesRemain := cl })
 
 /-- `processTrailers`. `none` = connection error. -/
 def H2Stream.processTrailers (s : H2Stream) (fs : Fields) (endStream : Bool) : H2Stream :=
